@@ -1,9 +1,4 @@
 // ---- specs/splinebuild.rs : shim for CubicSpline::build (selection of the extrapolation mode, C05/C06/C07)
-pub enum BuilderError { NotEnoughData(String), Monotonic(String), ShapeError(String), ValueError(String) }
-pub struct IndivArr { pub g: Ghost<int> }
-/// variant list is compared with the real `BoundaryCondition` on every run
-pub enum BoundaryCondition { NotAKnot, Natural, Clamped, Periodic, Individual(IndivArr) }
-pub struct CubicSpline { pub extrapolate: bool, pub boundary: BoundaryCondition }
 pub struct CubicSplineStrategy { pub a: ArrD, pub b: ArrD, pub extrapolate: Extrapolate }
 impl CubicSpline {
     /// the spline construction itself is outside Verus' reach (bounded stand-in: engine S); no contract is assumed
